@@ -209,6 +209,9 @@ func Explore(prop string, sc *Scenario, cfg ExploreCfg, res *Result) {
 	if cfg.NShards == 0 {
 		cfg.NShards = 1
 	}
+	if os.Getenv("HX_NOPRUNE") != "" {
+		cfg.Prune = false // self-test: outcome counts must not depend on pruning
+	}
 	sites := map[int32]bool{}
 	for k := range sc.Opts.Sites {
 		sites[k] = true
